@@ -120,6 +120,39 @@ def write_evidence(ctx, res, wall, nviol):
     return p
 
 
+def _replay_in_child(mod, ctx, payload):
+    """Runs the replay in a forked child: a replayed input that kills the
+    interpreter (native crash) is a reproduced violation, not a lost run."""
+    import traceback
+    r, w = os.pipe()
+    pid = os.fork()
+    if pid == 0:
+        code = 0
+        try:
+            os.close(r)
+            out = mod.replay(ctx, payload)
+            with os.fdopen(w, 'w') as f:
+                json.dump(_jsonable(out), f)
+        except BaseException:
+            traceback.print_exc()
+            code = 3
+        finally:
+            sys.stdout.flush()
+            sys.stderr.flush()
+            os._exit(code)
+    os.close(w)
+    with os.fdopen(r) as f:
+        data = f.read()
+    _, status = os.waitpid(pid, 0)
+    if os.WIFSIGNALED(status):
+        return dict(violates=True, crashed='the replayed input killed the '
+                    'interpreter with signal %d' % os.WTERMSIG(status))
+    if os.WEXITSTATUS(status) != 0 or not data:
+        print('replay raised an exception (see above)')
+        return None
+    return json.loads(data)
+
+
 def main(argv=None):
     ap = argparse.ArgumentParser()
     ap.add_argument('property')
@@ -147,7 +180,9 @@ def main(argv=None):
     if a.replay:
         with open(a.replay) as f:
             obj = json.load(f)
-        out = mod.replay(ctx, obj['replay'])
+        out = _replay_in_child(mod, ctx, obj['replay'])
+        if out is None:
+            return 2
         print(json.dumps(_jsonable(out), indent=1))
         if out.get('violates'):
             print('VIOLATION property=%s replay=%s' % (pid, a.replay))
